@@ -807,6 +807,12 @@ fn lit_str(lit: &hir::Lit) -> String {
         LitKind::Bool(b) => format!("{}", b),
         LitKind::Char(c) => format!("{:?}", c),
         LitKind::Byte(b) => format!("{}", b),
+        // byte strings (the template of a lowered format_args!): "b:" + hex
+        LitKind::ByteStr(ref b, _) => {
+            let mut s = String::from("b:");
+            for x in b.as_byte_str().iter() { s.push_str(&format!("{:02x}", x)); }
+            s
+        }
         _ => "?".to_string(),
     }
 }
